@@ -20,7 +20,7 @@
     are correct in the implementation but not covered by the proof
     ([Unproved_C20]; correspondence layers only). *)
 From Cicada Require Import Base.Chars Base.Tag Gen.EscapeClass Model.Tokenizer Model.Redirect Model.Cmds Model.Complete
-  Proofs.TokenizerProofs Proofs.TokenizerEscProofs Proofs.CompleteProofs.
+  Proofs.TokenizerProofs Proofs.TokenizerEscProofs Proofs.CompleteProofs Proofs.WordStartProofs.
 Local Open Scope N_scope.
 
 Definition C20_full : Prop :=
@@ -88,6 +88,12 @@ Proof. exact parse_line_escaped. Qed.
 Theorem C20_escape_class_covers : forall c, in_escape_class c = false -> classify c = KOther.
 Proof. exact escape_class_covers. Qed.
 
+(** escaped_word_start never points inside a character: lineread's slice of the
+    buffer at word_start cannot panic, for any line (any multi-byte characters) *)
+Theorem C20_word_start_boundary : forall line,
+  exists pre word, line = pre ++ word /\ split_bytes (escaped_word_start line) line = Some (pre, word).
+Proof. exact word_start_boundary. Qed.
+
 Check C20_partial : forall expand q cmd name d,
   honours_guards expand -> cmd_word cmd = true -> valid_filename name = true ->
   Known_C20 q name d = false -> Unproved_C20 q name = false ->
@@ -108,3 +114,4 @@ Print Assumptions C20_refuted_expanded.
 Print Assumptions C20_partial.
 Print Assumptions C20_parse_escaped.
 Print Assumptions C20_escape_class_covers.
+Print Assumptions C20_word_start_boundary.
